@@ -87,12 +87,13 @@ type Exec struct {
 	bounds    map[string]*ssa.Function
 	boundIDs  map[types.Object]int
 	groupOf   map[*Term]*Term
+	retryOrd  map[*ssa.Function]int
 	cancelID  int
 }
 
 func newExec(w *World, specs *SpecDB) *Exec {
 	return &Exec{w: w, specs: specs, notes: map[string]bool{}, abstract: map[string]bool{}, assumed: map[string]bool{}, inlined: map[string]bool{},
-		cloEnv: map[*Term]*Closure{}, nameCount: map[string]int{}, freeOf: map[*Contract]map[string]freeBinding{}, meaningDone: map[*ssa.Function]bool{}, boundIDs: map[types.Object]int{}, groupOf: map[*Term]*Term{}, fnIDs: map[*ssa.Function]int{}, fnByID: []*ssa.Function{nil}}
+		cloEnv: map[*Term]*Closure{}, nameCount: map[string]int{}, freeOf: map[*Contract]map[string]freeBinding{}, meaningDone: map[*ssa.Function]bool{}, boundIDs: map[types.Object]int{}, groupOf: map[*Term]*Term{}, retryOrd: map[*ssa.Function]int{}, fnIDs: map[*ssa.Function]int{}, fnByID: []*ssa.Function{nil}}
 }
 
 func (x *Exec) fnID(fn *ssa.Function) int {
@@ -549,7 +550,7 @@ func (x *Exec) enterLoop(fr *Frame, b *ssa.BasicBlock, loop *LoopInfo, edges []e
 		case strings.HasPrefix(k, "ghost:"):
 			g := strings.TrimPrefix(k, "ghost:")
 			ng := Fresh("G_"+g+"_loop", ghostSorts[g])
-			if freshOnlyGhost[g] {
+			if freshOnlyGhost[g] || (freshUnlessListed(g) && !ghostListed(fr.top, g)) {
 				// sound only for identities created before the function under verification was entered:
 				// the function itself may update the groups it created before the loop (invariants say how)
 				q := BoundVar("q_fg", "Int")
@@ -1107,6 +1108,10 @@ func (x *Exec) doUnOp(fr *Frame, st *State, ins *ssa.UnOp) Value {
 		}
 		t := x.loadPtr(st, v, elemT)
 		x.assume(st, x.wf(st, t, elemT))
+		if g, ok := ins.X.(*ssa.Global); ok && strings.HasPrefix(g.Name(), "Err") && t.Sort == sortIface {
+			x.assumed["package-level error variables named Err* are non-nil (they are initialised with errors.New and never reassigned)"] = true
+			x.assume(st, Not(Eq(Acc(t, 0), Int(0))))
+		}
 		out := Value{T: t}
 		if t.Sort == sortFn {
 			out.Clo = x.closureOf(t)
@@ -1465,6 +1470,15 @@ func (x *Exec) site(fr *Frame, ins ssa.Instruction) string {
 		s = relName(fn) + ":" + s
 	}
 	return s
+}
+
+func ghostListed(top *Frame, g string) bool {
+	for _, r := range top.modRegions {
+		if r.Ghost == g {
+			return true
+		}
+	}
+	return false
 }
 
 var loopWriteSets = map[*Frame]map[*LoopInfo]map[string]bool{}
